@@ -346,6 +346,127 @@ func c13Body(d c13Desc) func() {
 	}
 }
 
+// ---- concurrent registrations: the verdicts of RegisterInterface must be those of some sequential order, and a
+// listening service must not change ----
+
+type c13ConcDesc struct {
+	Kind  string   `json:"kind"`  // "concurrent"
+	Regs  []string `json:"regs"`  // names registered by one thread each (same name twice = competing registrations)
+	Serve bool     `json:"serve"` // a serving call is started concurrently and queried twice
+}
+
+type c13ConcState struct {
+	res    map[int]string
+	names  []string
+	q1, q2 []string
+	served bool
+	fail   string
+	key    string
+}
+
+func c13ConcBody(d c13ConcDesc) func() {
+	return func() {
+		w := newWorld()
+		st := &c13ConcState{res: map[int]string{}}
+		w.LC = st
+		s, _ := varlink.NewService("v", "p", "1", "u")
+		w.S = s
+		ctx := vnet.NewCtx("serve")
+		live := vnet.NewCtx("client")
+		l := vnet.NewListener("L0")
+		done := 0
+		for i, n := range d.Regs {
+			i, n := i, n
+			vsched.GoDaemon(fmt.Sprintf("R%d", i), func() {
+				err := s.RegisterInterface(&disp{name: n, desc: fmt.Sprintf("d%d", i), w: w})
+				st.res[i] = errStr(err)
+				done++
+			})
+		}
+		if d.Serve {
+			vsched.GoDaemon("M", func() {
+				s.VerifSetListener(l)
+				s.DoListen(ctx, 0)
+			})
+			vsched.GoDaemon("Q", func() {
+				vsched.Yield("wait-serving", "Q", func() bool { return l.Blocked() })
+				st.served = true
+				q := func() []string {
+					c, err := l.Dial("")
+					if err != nil {
+						return []string{"dial:" + err.Error()}
+					}
+					conn := varlink.VerifNewConnection(c)
+					defer conn.Close()
+					var ifaces []string
+					if err := conn.GetInfo(live, nil, nil, nil, nil, &ifaces); err != nil {
+						return []string{"err:" + err.Error()}
+					}
+					return ifaces
+				}
+				st.q1 = q()
+				vsched.Yield("wait-regs", "Q", func() bool { return done == len(d.Regs) })
+				st.q2 = q()
+				s.Shutdown()
+			})
+		}
+		vsched.Yield("wait-regs", "H", func() bool { return done == len(d.Regs) })
+		st.names = s.VerifNames()
+	}
+}
+
+func c13ConcObs(x *vsched.Exec) string {
+	w := worldOf(x)
+	if w == nil {
+		return "noworld"
+	}
+	st := w.LC.(*c13ConcState)
+	return fmt.Sprintf("res=%v names=%v q1=%v q2=%v parked=%v", st.res, st.names, st.q1, st.q2, x.Parked)
+}
+
+func c13ConcCheck(d c13ConcDesc) func(x *vsched.Exec) (string, string) {
+	return func(x *vsched.Exec) (string, string) {
+		if x.Panic != "" {
+			return "panic: " + x.Panic, "panic"
+		}
+		w := worldOf(x)
+		st := w.LC.(*c13ConcState)
+		if len(st.res) != len(d.Regs) {
+			return fmt.Sprintf("registrations did not finish (parked %v)", x.Parked), "symptom=history-stuck"
+		}
+		// each name is listed exactly as often as a registration of it succeeded, and at most once
+		succ := map[string]int{}
+		for i, n := range d.Regs {
+			if st.res[i] == "ok" {
+				succ[n]++
+			}
+		}
+		listed := map[string]int{}
+		for _, n := range st.names {
+			listed[n]++
+		}
+		for _, n := range d.Regs {
+			if succ[n] > 1 {
+				return fmt.Sprintf("%d concurrent registrations of %q were all accepted (verdicts %v)", succ[n], n, st.res), "symptom=duplicate-registration-accepted"
+			}
+			if listed[n] != succ[n] {
+				return fmt.Sprintf("%q is listed %d times after %d successful registrations (names %v, verdicts %v)", n, listed[n], succ[n], st.names, st.res), "symptom=names-inconsistent-with-verdicts"
+			}
+			if !d.Serve && succ[n] != 1 {
+				return fmt.Sprintf("no registration of %q succeeded although the service never listened (verdicts %v)", n, st.res), "symptom=registration-lost"
+			}
+		}
+		if listed["org.varlink.service"] != 1 {
+			return fmt.Sprintf("names %v", st.names), "symptom=names-inconsistent-with-verdicts"
+		}
+		// a listening service does not change: two queries made while it listens agree
+		if d.Serve && st.served && st.q2 != nil && !reflect.DeepEqual(st.q1, st.q2) {
+			return fmt.Sprintf("GetInfo listed %v and later %v while the service was listening the whole time", st.q1, st.q2), "symptom=changed-while-listening"
+		}
+		return "", ""
+	}
+}
+
 func sortStrings(a []string) {
 	for i := 1; i < len(a); i++ {
 		for j := i; j > 0 && a[j] < a[j-1]; j-- {
@@ -441,5 +562,23 @@ func scenariosC13(tier string) []Scen {
 	rec([]string{"serve", "conn", "shutdown"}, false, true)
 	base = 4
 	rec([]string{"reg:a.b:d1", "serve", "conn", "shutdown"}, false, true)
+	// concurrent registrations (competing for one name, and racing with the start of serving)
+	cb := 3
+	if tier != "quick" {
+		cb = 4
+	}
+	for _, regs := range [][]string{{"t.x", "t.x"}, {"t.x", "t.y"}, {"t.x", "t.x", "t.y"}, {"t.x"}} {
+		for _, serve := range []bool{false, true} {
+			if len(regs) == 1 && !serve {
+				continue
+			}
+			d := c13ConcDesc{Kind: "concurrent", Regs: regs, Serve: serve}
+			cb := cb
+			if serve {
+				cb-- // the two GetInfo round trips make these executions long
+			}
+			out = append(out, Scen{Desc: d, Bound: cb, Body: c13ConcBody(d), Check: c13ConcCheck(d), Obs: c13ConcObs})
+		}
+	}
 	return out
 }
